@@ -171,4 +171,9 @@ example : (∀ i, (exEnv i).WF) ∧ Dom exExpr (fun i => (exEnv i).real) := by
   · simp only [exExpr, Dom, evalR, exEnv, true_and]
     norm_num
 
+/-- a power with base exactly 0 is inside the domain of the theorems wherever `x^p` is differentiable there:
+`p ≥ 1` and `x⁰` -/
+example : Dom (.powc (.leaf 0) 1) (fun _ => (0 : ℝ)) ∧ Dom (.powc (.leaf 0) 0) (fun _ => (0 : ℝ)) := by
+  refine ⟨?_, ?_⟩ <;> simp only [Dom, evalR, true_and] <;> norm_num
+
 end Rateslib
